@@ -9810,7 +9810,18 @@ def _write_node(node, xml_tree=None, viewport_transform=None):
                 xml_tree.set(SVG_ATTR_STROKE_OPACITY, str(stroke_opacity))
 
             try:
-                stroke_width = str(node.stroke_width)
+                stroke_width = node.stroke_width
+                if (
+                    viewport_transform
+                    and stroke_width is not None
+                    and SVG_VALUE_NON_SCALING_STROKE
+                    in node.values.get(SVG_ATTR_VECTOR_EFFECT, "")
+                ):
+                    # A reader scales a non-scaling stroke by the enclosing viewports again.
+                    stroke_width = node.implicit_stroke_width * sqrt(
+                        abs(viewport_transform.determinant)
+                    )
+                stroke_width = str(stroke_width)
                 xml_tree.set(SVG_ATTR_STROKE_WIDTH, str(stroke_width))
             except AttributeError:
                 pass
